@@ -9,9 +9,9 @@ SESSION = os.path.join(common.VERIF, "harness", "memsession.py")
 KEYVAL = {"a": 3, "b": 4}
 
 
-def mcfg(name, gen=False, maxops=6, procs=(1, 2), slots=(1, 2), stores=(1,), fix=(True, True, True), invariants=("ValueCorrect",), props=("HitWhenDue",)):
+def mcfg(name, gen=False, maxops=6, procs=(1, 2), slots=(1, 2), stores=(1,), fix=(True, True, True, True), invariants=("ValueCorrect",), props=("HitWhenDue",)):
     path = os.path.join(common.VERIF, "out", "cfg", "MD_%s.cfg" % name)
-    consts = dict(Procs=set(procs), Slots=set(slots), Vers={1, 2}, Keys={"a", "b"}, Stores=set(stores), MaxOps=maxops, FixD6=fix[0], FixD13=fix[1], FixD5c=fix[2], Gen=gen)
+    consts = dict(Procs=set(procs), Slots=set(slots), Vers={1, 2}, Keys={"a", "b"}, Stores=set(stores), MaxOps=maxops, FixD6=fix[0], FixD13=fix[1], FixD5c=fix[2], FixD20=(fix[3] if len(fix) > 3 else True), Gen=gen)
     if gen:
         tlc.write_cfg(path, constants=consts, init="Init", next="Next", constraint="Emit")
     else:
@@ -81,13 +81,15 @@ def replay(args):
                 for kk in [kk for kk in must if kk[0] == e.get("s", 1)]: del must[kk]
             elif op == "evict":
                 evict(os.path.join(root, "store%s" % e.get("s", 1)), KEYVAL[e["k"]]); must.pop((e.get("s", 1), e["k"]), None); r = {}
-            elif op == "call":
+            elif op in ("call", "force"):
                 v = ocode[(e["p"], e["i"])]; st = e.get("s", 1); k = (st, e["k"]); calls += 1
-                r = sess(e["p"]).do({"op": "call", "i": e["i"], "s": st, "k": KEYVAL[e["k"]]})
+                r = sess(e["p"]).do({"op": op, "i": e["i"], "s": st, "k": KEYVAL[e["k"]]})
                 if "exc" not in r:
                     if r["value"] != ["v%d" % v, KEYVAL[e["k"]]]:
                         problems.append({"kind": "value_of_other_code", "step": n, "called_version": v, "got": r["value"]})
-                    elif must.get(k) == v and r["executed"]:
+                    elif op == "force" and not r["executed"]:
+                        problems.append({"kind": "forced_call_not_executed", "step": n, "called_version": v})
+                    elif op == "call" and must.get(k) == v and r["executed"]:
                         problems.append({"kind": "executed_although_cached", "step": n, "called_version": v})
                     if any(mv != v for kk, mv in must.items() if kk[0] == st):
                         for kk in [kk for kk in must if kk[0] == st]: del must[kk]
@@ -113,7 +115,7 @@ def body(c):
     # shortcut of one cannot see that the other rewrote the stored source
     r = c.model_check("MemoryDesign[two live processes - documented limit]", "MemoryDesign", mcfg("limit2", maxops=5), must_hold=False, workers=16)
     sens.append("two simultaneously live processes with different versions -> %s (documented limit, not claimed)" % (r.violated,))
-    for nm, fx in (("D6_off", (False, True, True)), ("D13_off", (True, False, True))):
+    for nm, fx in (("D6_off", (False, True, True)), ("D13_off", (True, False, True)), ("D20_off", (True, True, True, False))):
         r = c.model_check("MemoryDesign[%s]" % nm, "MemoryDesign", mcfg(nm, maxops=6, fix=fx, procs=(1,)), must_hold=False, workers=16)
         if r.ok: raise tlc.TLCError("MemoryDesign lost its sensitivity to %s" % nm)
         sens.append("%s -> %s" % (nm, r.violated))
@@ -135,8 +137,8 @@ def body(c):
     import random
     rng = random.Random(c.seed)
     # histories without any call teach nothing; keep those with >= 2 calls
-    h1 = [h for h in h1 if sum(1 for e in h if e["op"] == "call") >= 2]
-    h2 = [h for h in h2 if sum(1 for e in h if e["op"] == "call") >= 2]
+    h1 = [h for h in h1 if sum(1 for e in h if e["op"] in ("call", "force")) >= 2]
+    h2 = [h for h in h2 if sum(1 for e in h if e["op"] in ("call", "force")) >= 2]
     cap = 700 if c.quick else 12000
     if len(h1) > cap: h1 = rng.sample(h1, cap)
     c.extra["histories_module_1proc"] = len(h1); c.extra["histories_module_long"] = len(h2)
@@ -147,7 +149,7 @@ def body(c):
     # other function kinds: single live slot histories (nested / lambda / __main__ script edited in place)
     single = [h for h in h1 if all(e.get("i", 1) == 1 for e in h)]
     per_kind = 60 if c.quick else 600
-    for kind in ("nested", "lambda", "main"):
+    for kind in ("nested", "lambda", "main", "indent"):
         for h in (single if len(single) <= per_kind else rng.sample(single, per_kind)):
             jobs.append((hid, h, kind, base)); hid += 1
     with ThreadPoolExecutor(max_workers=14) as ex:
@@ -164,9 +166,9 @@ def body(c):
     for j in jobs[:: max(1, len(jobs) // 4)][:4]:
         c.sample({"function_kind": j[2], "history": j[1]})
     c.traces_validated = len(results)
-    c.rule = ("histories over define(version) / swap __code__ / call(arg) / restart process / clear / evict on same-named functions sharing one "
+    c.rule = ("histories over define(version) / swap __code__ / call(arg) / forced call(arg) / restart process / clear / evict on same-named functions sharing one "
               "cache directory: every behaviour of MemoryDesign.tla of length %d for one process with two live objects, TLC-simulated longer ones "
-              "for two processes, replayed on real Memory sessions (module-level, nested, lambda, __main__); distinct = (function kind, history) "
+              "for two processes, replayed on real Memory sessions (module-level, nested, lambda, __main__, and a module-level function whose versions differ only in the indentation of one line); distinct = (function kind, history) "
               "with >= 2 calls" % L)
     c.assumptions += ["versions differ in their source text; calls are sequential (no concurrent sessions)", "eviction emulated by removing the entry directory"]
 
